@@ -623,73 +623,11 @@ func isIndexPhi(ph *ssa.Phi) bool {
 }
 
 func c13Wrappers(c *Ctx) {
-	// Lock
-	lock := c.Func(CorePath, "Lock")
-	lws := c.Named(CorePath, "lockedWriteSyncer")
-	if c.Anchor("R13.3", "zapcore.Lock", lock != nil && lws != nil) {
-		name := lock.String()
-		var sawSame, sawWrap bool
-		for _, r := range Returns(lock) {
-			v := Strip(r.Results[0])
-			if v == ssa.Value(lock.Params[0]) {
-				// must be guarded by the type assertion to *lockedWriteSyncer succeeding
-				ok := HasAtom(Guards(r), func(s string) bool {
-					return strings.Contains(s, ".(*zapcore.lockedWriteSyncer)?#1") && !strings.HasPrefix(s, "!")
-				})
-				c.Check(ok, "R13.3", name, "no-double-wrap", r.Pos(), "returns its argument itself only under a successful assertion to *lockedWriteSyncer (guards %v)", AtomStrings(Guards(r)))
-				sawSame = true
-			} else if a, ok := v.(*ssa.Alloc); ok && types.Identical(deref(a.Type()), lws) {
-				// ws field initialised with the parameter
-				okInit := false
-				for _, st := range FieldStoresOf(lock, lws) {
-					if st.Field == "ws" && st.Addr.X == ssa.Value(a) && Strip(st.Instr.Val) == ssa.Value(lock.Params[0]) {
-						okInit = true
-					}
-				}
-				c.Check(okInit, "R13.3", name, "wraps-argument", r.Pos(), "returns a fresh *lockedWriteSyncer whose ws is the argument")
-				sawWrap = true
-			} else {
-				c.Bad("R13.3", name, "return", r.Pos(), "unexpected return value %s", Desc(r.Results[0]))
-			}
-		}
-		if !sawSame {
-			c.Bad("R13.3", name, "no-double-wrap", lock.Pos(), "no path returns an already locked syncer unchanged")
-		}
-		if !sawWrap {
-			c.Bad("R13.3", name, "wraps-argument", lock.Pos(), "no path wraps the argument")
-		}
-	}
-	// AddSync
-	as := c.Func(CorePath, "AddSync")
-	ww := c.Named(CorePath, "writerWrapper")
-	if c.Anchor("R13.3", "zapcore.AddSync", as != nil && ww != nil) {
-		name := as.String()
-		var keep, wrap bool
-		for _, r := range Returns(as) {
-			v := Strip(r.Results[0])
-			d := Desc(v)
-			switch {
-			case strings.Contains(d, "w.(zapcore.WriteSyncer)?#0"):
-				ok := HasAtom(Guards(r), func(s string) bool { return s == "w.(zapcore.WriteSyncer)?#1" })
-				c.Check(ok, "R13.3", name, "keeps-existing-sync", r.Pos(), "returns the writer itself when it already is a WriteSyncer")
-				keep = true
-			default:
-				// writerWrapper{w}
-				okInit := false
-				for _, st := range FieldStoresOf(as, ww) {
-					if st.Field == "Writer" && Strip(st.Instr.Val) == ssa.Value(as.Params[0]) {
-						okInit = true
-					}
-				}
-				isWW := types.Identical(v.Type(), ww)
-				c.Check(okInit && isWW, "R13.3", name, "adds-noop-sync", r.Pos(), "otherwise returns writerWrapper{w} (value %s)", d)
-				wrap = true
-			}
-		}
-		if !keep || !wrap {
-			c.Bad("R13.3", name, "arms", as.Pos(), "AddSync must have both a keep-existing and a wrap arm (keep=%v wrap=%v)", keep, wrap)
-		}
-	}
+	// Lock / AddSync, by path exploration (helpers inline): what is returned under each outcome of the type test
+	c13WrapOrKeep(c, c.Func(CorePath, "Lock"), c.Named(CorePath, "lockedWriteSyncer"), "ws", "*go.uber.org/zap/zapcore.lockedWriteSyncer",
+		"no-double-wrap", "wraps-argument", "an already locked syncer is returned as it is; anything else is wrapped in a fresh *lockedWriteSyncer whose ws is the argument")
+	c13WrapOrKeep(c, c.Func(CorePath, "AddSync"), c.Named(CorePath, "writerWrapper"), "Writer", "go.uber.org/zap/zapcore.WriteSyncer",
+		"keeps-existing-sync", "adds-noop-sync", "a writer that already is a WriteSyncer is returned as it is; anything else is wrapped in a writerWrapper around the argument")
 	wws := c.Method(CorePath, "writerWrapper", "Sync")
 	if c.Anchor("R13.3", "zapcore.writerWrapper.Sync", wws != nil) {
 		for k, r := range Returns(wws) {
@@ -711,4 +649,126 @@ func c13Wrappers(c *Ctx) {
 			c.Check(ok && IsCallTo(call, "(go.uber.org/zap/zapcore.WriteSyncer).Sync"), "R13.3", ls.String(), "return#"+itoa(k+1), r.Pos(), "returns the inner Sync's error unchanged (%s)", Desc(r.Results[0]))
 		}
 	}
+}
+
+// c13WrapOrKeep: fn(arg) returns arg itself exactly when arg already has the asserted type, and otherwise a fresh
+// wrapper of type `wrapper` whose field `field` is arg - on every path, however the type test and the construction
+// are written (comma-ok assertion, type switch, constructor helper, literal or new+assignment).
+func c13WrapOrKeep(c *Ctx, fn *ssa.Function, wrapper *types.Named, field, asserted, slotKeep, slotWrap, doc string) {
+	if !c.Anchor("R13.3", "zapcore wrap-or-keep constructor", fn != nil && wrapper != nil && len(fn.Params) == 1) {
+		return
+	}
+	name := fn.String()
+	arg := fn.Params[0]
+	resolve := func(st *ConcState, v ssa.Value) ssa.Value {
+		for k := 0; k < 16 && v != nil; k++ {
+			switch x := v.(type) {
+			case *ssa.ChangeType:
+				v = x.X
+				continue
+			case *ssa.ChangeInterface:
+				v = x.X
+				continue
+			case *ssa.MakeInterface:
+				v = x.X
+				continue
+			}
+			nx := st.Step(v)
+			if nx == nil {
+				break
+			}
+			v = nx
+		}
+		return v
+	}
+	isArg := func(st *ConcState, v ssa.Value) bool {
+		r := resolve(st, v)
+		if r == ssa.Value(arg) {
+			return true
+		}
+		// the value of a successful assertion of the argument is the argument
+		switch x := r.(type) {
+		case *ssa.Extract:
+			if ta, ok := x.Tuple.(*ssa.TypeAssert); ok && x.Index == 0 {
+				return resolve(st, ta.X) == ssa.Value(arg)
+			}
+		case *ssa.TypeAssert:
+			return resolve(st, x.X) == ssa.Value(arg)
+		}
+		return false
+	}
+	seqs, trunc := ConcPaths(fn, ConcCfg{
+		Branch: func(cond ssa.Value, taken bool, st *ConcState) string {
+			pol := taken
+			for k := 0; k < 8; k++ {
+				if u, ok := cond.(*ssa.UnOp); ok && u.Op == token.NOT {
+					cond, pol = u.X, !pol
+					continue
+				}
+				if nx := st.Step(cond); nx != nil {
+					cond = nx
+					continue
+				}
+				break
+			}
+			ex, ok := cond.(*ssa.Extract)
+			if !ok || ex.Index != 1 {
+				return ""
+			}
+			ta, ok := ex.Tuple.(*ssa.TypeAssert)
+			if !ok || resolve(st, ta.X) != ssa.Value(arg) {
+				return ""
+			}
+			if ta.AssertedType.String() != asserted {
+				return "other-type-test(" + ta.AssertedType.String() + ")"
+			}
+			if pol {
+				return "is=T"
+			}
+			return "is=F"
+		},
+		Event: func(in ssa.Instruction, st *ConcState) string {
+			r, ok := in.(*ssa.Return)
+			if !ok || len(r.Results) != 1 {
+				return ""
+			}
+			if isArg(st, r.Results[0]) {
+				return "ret(arg)"
+			}
+			v := resolve(st, r.Results[0])
+			if n, _ := types.Unalias(deref(v.Type())).(*types.Named); n != nil && n.Obj() == wrapper.Obj() {
+				_, isInt, fv := st.FieldOf(v, field)
+				if !isInt && fv != nil && isArg(st, fv) {
+					return "ret(wrap(arg))"
+				}
+				if sf := structValueFields(r.Results[0]); sf[field] == arg.Name() {
+					return "ret(wrap(arg))"
+				}
+				return "ret(wrap(?))"
+			}
+			return "ret(?" + st.Desc(r.Results[0]) + ")"
+		},
+	})
+	if trunc || len(seqs) == 0 {
+		c.Und("R13.3", name, slotKeep, fn.Pos(), "path exploration incomplete")
+		return
+	}
+	var badKeep, badWrap []string
+	keep, wrap := false, false
+	for _, sq := range seqs {
+		switch sq {
+		case "is=T ; ret(arg)":
+			keep = true
+		case "is=F ; ret(wrap(arg))":
+			wrap = true
+		default:
+			if strings.Contains(sq, "is=T") {
+				badKeep = append(badKeep, sq)
+			} else {
+				badWrap = append(badWrap, sq)
+			}
+		}
+	}
+	c.Check(keep && len(badKeep) == 0, "R13.3", name, slotKeep, fn.Pos(), "%s (keep arm: %v)", doc, badKeep)
+	c.Check(wrap && len(badWrap) == 0, "R13.3", name, slotWrap, fn.Pos(), "%s (wrap arm: %v)", doc, badWrap)
 }
